@@ -133,11 +133,11 @@ def w1_scene(rnd, n, nfaces, npts, nlines, ntris, big):
         "TgtPts": S(tg_pts), "TgtEdges": tla_set_of_sets([S(e) for e in tg_edges]),
         "TgtClouds": tla_set_of_sets([S(c) for c in clouds]), "TgtLines": tla_set_of_sets([S(l) for l in tlines]),
         "TgtFaces": set(rnd.sample(range(6), 1) + faces[:1]), "LimPairs": tla_set_of_sets([S(l) for l in lim]),
-        "GLevel": 3, "GRectCodes": set(), "GRowCodes": set(), "GTgtCodes": set(),
+        "GLevel": 3, "GRectCodes": set(), "GRowCodes": set(), "GTgtCodes": set(), "GCloudCodes": "{}",
     }
 
 
-def w2_scene(rnd, g, nfaces, rows, bundle=False):
+def w2_scene(rnd, g, nfaces, rows, bundle=False, nclouds=2):
     k, k2 = 2 ** g + 1, 2 ** (g + 2)
     n = 2 ** g
     faces = rnd.sample(range(6), nfaces)
@@ -166,10 +166,18 @@ def w2_scene(rnd, g, nfaces, rows, bundle=False):
                     rws.add(((f * k + i0) * k + i1) * k + j)
     for _ in range(3):
         tg.add((rnd.randrange(6) * k2 + rnd.randrange(k2)) * k2 + rnd.randrange(k2))
+    # index targets: a few cell centres spread over the sphere / near the shapes
+    clouds = []
+    for _ in range(nclouds):
+        c = {(rnd.randrange(6) * k2 + rnd.randrange(k2)) * k2 + rnd.randrange(k2) for _ in range(rnd.randint(2, 6))}
+        if rnd.random() < 0.5:
+            c.add(rnd.choice(sorted(tg)))
+        clouds.append(c)
     return {
         "N": 1, "PointIdx": set(), "LineSets": "{}", "TriSets": "{}", "TgtPts": set(), "TgtEdges": "{}",
         "TgtClouds": "{}", "TgtLines": "{}", "TgtFaces": set(), "LimPairs": "{}",
         "GLevel": g, "GRectCodes": rects, "GRowCodes": rws, "GTgtCodes": tg,
+        "GCloudCodes": tla_set_of_sets(clouds),
     }
 
 
